@@ -81,5 +81,86 @@ CHECKS["C02"] = {
     ],
 }
 
+_WORLD_NOTE = "Trusted: the Lightning model (harness/lnmodel) as a rendering of the lightning.Client contract; the client helper (blinding/unblinding with dcrec secp256k1); SQLite's atomic commit. "
+
+CHECKS["C01"] = {
+    "pkg": "./checks/c01",
+    "level": "exploration",
+    "technique": "model-based stateful property testing (rapid) with a re-presentation grammar + harness-owned schedule exploration of concurrent requests",
+    "rule": ("(a) rapid state machine over a real mint: fund / swap / melt with LN outcome {success, pending, failed, transport error} / resolve / restart / rotate plus the re-presentation grammar applied to spent and pending secrets "
+             "(alone, with fresh proofs, twice identical, twice with changed witness / dleq, changed witness / dleq / amount / C, via swap or another melt quote, after restart) and duplicate-input variants on unspent proofs; "
+             "oracle: per secret at most one successful operation accepted it (swap returned signatures; melt counts from the moment its inputs were locked), every re-presentation is refused, ProofsStateCheck of all known secrets equals the model after every step, SPENT absorbing across restart. "
+             "non-trivial: history containing >=1 re-presentation of a spent/pending secret that reached the mint; distinct = hash of the trace. "
+             "(b) schedules: see classes sched_* (two/three concurrent requests with shared inputs interleaved at storage/LN-call granularity by the cooperative scheduler; non-trivial = shared secret and >=1 context switch inside a request)."),
+    "level_text": ("Generated histories and generated/enumerated schedules against the real mint with a reference model keyed by secret; any secret accepted twice, any state disagreement and any resurrected SPENT secret fails and shrinks. "
+                   "Exploration: histories are sampled; pair schedules are enumerated up to a pre-emption bound in quick and completely in thorough, triples are sampled."),
+    "level_note": _WORLD_NOTE + "Interleavings are explored at storage/LN-call granularity (each MintDB method is one SQLite statement/transaction on a single connection).",
+    "assumptions": ["interleaving granularity = one storage or Lightning call", "Lightning backend modelled by harness/lnmodel"],
+    "units": [
+        rapid("seq", "^TestSeq$", 320, 6400, qs=8, ts=16),
+    ],
+}
+
+CHECKS["C03"] = {
+    "pkg": "./checks/c03",
+    "level": "exploration",
+    "technique": "model-based stateful property testing (rapid) with a NUT-20 tampering grammar + harness-owned schedule exploration",
+    "rule": ("(a) rapid state machine: mint quotes (locked/unlocked), pay, poll, deliver the asynchronous settlement notification (possibly late, after issuance), mint with exact / smaller / over-by-one / duplicate / unknown-keyset / non-key outputs, "
+             "locked mints with the NUT-20 grammar {honest (reference signer), honest (library signer), none, non-hex, wrong length, other key, reordered, added, removed, replaced output, other quote id, outputs changed after signing}, internal settlement by melt, restart; "
+             "oracle: issuances(q) <= payments(q) (external settlement 0/1 + internal settlements), issued amount <= quote amount, no PAID/ISSUED state without payment, locked quote issues only with a BIP-340-valid signature (independent verifier) over exactly the submitted outputs, honest signatures accepted. "
+             "non-trivial: a mint attempt after an issuance, a late notification, or a tampered signature presented on a locked paid quote; distinct = hash of the trace. (b) schedules: classes sched_*."),
+    "level_text": ("Generated histories against the real mint and watcher goroutine with a payment/issuance counter model; a second issuance for one payment, an issuance before payment or an accepted tampered NUT-20 signature fails and shrinks. Exploration: sampled histories, bounded schedule enumeration."),
+    "level_note": _WORLD_NOTE + "The settlement notification is delivered by the harness (Recv blocks until then) and the step completes when the watcher goroutine has exited.",
+    "assumptions": ["Lightning backend modelled by harness/lnmodel", "interleaving granularity = one storage or Lightning call"],
+    "units": [
+        rapid("seq", "^TestSeq$", 400, 8000, qs=8, ts=16),
+    ],
+}
+
+CHECKS["C09"] = {
+    "pkg": "./checks/c09",
+    "level": "exploration",
+    "technique": "model-based stateful property testing (rapid) with independent BIP-32 / NUT-02 re-derivation of every keyset",
+    "rule": ("rapid state machine mixing restart without rotation, restart with RotateKeyset and a drawn fee, runtime RotateKeyset(fee), fee in {0,1,100,999,1000,2500}, up to 5 keysets, interleaved with mint / swap / melt traffic using old and new keysets and adversarial outputs naming inactive / unknown keysets; "
+             "oracle after every step: exactly one active keyset; every keyset ever seen still listed with the same id and fee; (once per keyset per mint instance) all 60 published keys equal the independent derivation m/0'/0'/idx'/i' from the stored seed and the id equals the reference NUT-02 id; signatures only on the active keyset; honest spends of old-keyset proofs succeed with fee = ceil(sum ppk/1000) per input keyset as an acceptance boundary (inputs-fee accepted, +1 refused). "
+             "non-trivial: history with >=1 rotation followed by a successful spend of a proof from a non-active keyset; distinct = hash of the trace."),
+    "level_text": "Generated rotation/restart histories against the real mint; keys and ids are recomputed outside the mint from the stored seed with the math/big + HMAC reference. Exploration over histories and fee configurations.",
+    "level_note": _WORLD_NOTE + "Reference derivation in harness/ref (pinned to BIP-32 TV1 and the NUT-02 vector). Mint seeds come from a fixed pool of 6 so that reference keys can be cached.",
+    "assumptions": ["reference derivation harness/ref correct", "mint seed pre-seeded into the database before first start (pool of 6)"],
+    "units": [
+        rapid("lifecycle", "^TestLifecycle$", 240, 4800, qs=8, ts=16),
+    ],
+}
+
+CHECKS["C15"] = {
+    "pkg": "./checks/c15",
+    "level": "exploration",
+    "technique": "model-based stateful property testing (rapid): checkstate / restore answers compared with a reference model of everything the mint did",
+    "rule": ("rapid state machine (fund, swap, melt with all LN outcomes, delayed resolution, internal settlement, rotation, restart) with, at any point, checkstate queries of 1..40 entries mixing known Ys in every state, unknown-but-valid points, repeats and malformed strings, and restore queries of 1..14 entries mixing signed B_ (incl. with wrong amount/id fields in the request), never-signed points, repeats and malformed strings; "
+             "oracle: i-th answer is for the i-th Y with the model state (unknown/malformed => UNSPENT) and the witness the spend carried; restore returns exactly the requested B_ the mint signed, in request order, with the amount, id, C_ and (e,s) first returned; identical after restart. "
+             "non-trivial: history with a checkstate query covering >=2 distinct states or a restore query with >=1 signed and >=1 unsigned entry; distinct = hash of the trace."),
+    "level_text": "Generated histories and generated queries against the real mint; every answer is compared position by position with the reference model fed by responses and LN ground truth. Exploration over histories and queries.",
+    "level_note": _WORLD_NOTE,
+    "assumptions": ["Lightning backend modelled by harness/lnmodel", "empty query lists are C06's subject and are not generated here"],
+    "units": [
+        rapid("truth", "^TestTruth$", 400, 6400, qs=8, ts=16),
+    ],
+}
+
+CHECKS["C16"] = {
+    "pkg": "./checks/c16",
+    "level": "exploration",
+    "technique": "model-based stateful property testing (rapid) with boundary-value request generation against big-integer limit arithmetic",
+    "rule": ("rapid state machine with drawn limits (max balance, mint max, melt max each unset / small / larger) and boundary requests: mint quotes of mintMax, mintMax +- 1, maxBalance - balance +- 1, 2^63-1, 2^63, 2^64-1, 2^64 - balance (+0..2: uint64 wrap), melt quotes of meltMax, meltMax +- 1 sat with and without sub-sat msat; "
+             "oracle after every step: IssuedEcash / RedeemedEcash per keyset equal the sums of signatures handed out / proofs consumed (model), TotalBalance = difference >= 0, info.nuts.4.disabled = (maxBalance set and balance >= maxBalance); a mint quote is refused iff amount > mintMax or balance + amount > maxBalance (big-integer arithmetic), a melt quote iff its sat amount > meltMax. "
+             "non-trivial: history containing a request within +-1 of a configured boundary or >= 2^63, or a balance read after >=1 fee-charging swap and >=1 settled melt; distinct = hash of limits and trace."),
+    "level_text": "Generated histories and limits against the real mint and its SQLite balance views; totals are recomputed from responses. Exploration over histories and limit configurations.",
+    "level_note": _WORLD_NOTE + "Issued totals stay far below 2^62 (SQLite SUM is int64); amounts >= 2^63 are only requested, where refusal (by limit or by the Lightning backend, which cannot invoice them) is the expected answer.",
+    "assumptions": ["Lightning backend refuses invoices above 2^40 sat like real backends", "totals < 2^62"],
+    "units": [
+        rapid("balances", "^TestBalances$", 400, 6400, qs=8, ts=16),
+    ],
+}
+
 NOT_APPLICABLE = {}
 HOOK_COMMITS = []
